@@ -108,6 +108,14 @@ static void mode_testfile(Case &c) {
 	if (sched_nontrivial(sch, data.size(), ref.out.size()) && ref.total_in > 6) nontrivial(hcomb(hcomb(hash_bytes(data.data(), data.size()), k * 131 + flags), sch.hash()));
 }
 
+// Input for chains with a BCJ filter: bytes the filters look for (x86 E8/E9 with 00/FF high bytes, ARM BL, Thumb BL pairs, PowerPC
+// bl, SPARC call, ARM64 BL/ADRP, RISC-V JAL/AUIPC), dense enough that converted instructions sit next to each other and across
+// every call boundary.  Drawn from a PRNG seeded with the recipe (no case bytes are consumed: committed corpus cases keep their meaning).
+static void opcode_rich(std::vector<uint8_t> &in, uint64_t seed) {
+	static const uint8_t t[24] = {0xE8, 0xE9, 0xE8, 0xE9, 0x00, 0xFF, 0x00, 0xFF, 0xEB, 0xF0, 0xF8, 0x48, 0x01, 0x40, 0x7F, 0x94, 0x97, 0x90, 0xEF, 0x17, 0xE7, 0x0F, 0x80, 0x03};
+	Rng g(seed ^ 0xBC7); for (auto &b : in) b = (g.next() & 7) ? t[g.below(24)] : g.byte();
+}
+
 // ---- decoders on generated streams ------------------------------------------------
 static void mode_generated(Case &c) {
 	ec::Config g; ec::DrawFlags f; f.allow_big = false;
@@ -115,6 +123,7 @@ static void mode_generated(Case &c) {
 	uint32_t maxlen = c.chance(30) ? (1u << 20) : (1u << 14);
 	Recipe r = draw_recipe(c, maxlen, g.lz.dict_size);
 	std::vector<uint8_t> in = expand(r);
+	if (g.has_bcj && (r.hash() & 1)) { opcode_rich(in, r.hash()); count("bcj_chain_with_opcode_rich_input"); }
 	g.prepare_for_len(in.size());
 	drv::Schedule esch; // one-shot encode
 	ec::Encoded E = ec::encode_all(g, in, esch, AL());
@@ -152,6 +161,7 @@ static void mode_encoder(Case &c) {
 	ec::draw_config(c, g, f);
 	Recipe r = draw_recipe(c, c.chance(30) ? (1u << 20) : (1u << 14), g.lz.dict_size);
 	std::vector<uint8_t> in = expand(r);
+	if (g.has_bcj && (r.hash() & 1)) { opcode_rich(in, r.hash()); count("bcj_chain_with_opcode_rich_input"); }
 	g.prepare_for_len(in.size());
 	drv::Schedule sch = drv::draw_schedule(c, false);
 	set_desc("{\"mode\":\"encoder\",\"cfg\":" + g.describe() + ",\"input\":" + r.describe() + ",\"schedule\":" + sch.describe() + "}");
